@@ -835,6 +835,51 @@ theorem simplex_value_is_f (f : Vec Rat → Rat) (s : Simplex Rat) (h : Honest f
   · exact h
 
 
+/-- **simplexInit_honest**: after `init` (as repaired, F16) the reported value is the objective at the reported point, for
+EVERY objective -- no bound on its values -/
+theorem simplexInit_honest (f : Vec Rat → Rat) (x0 : Vec Rat) : Honest f (simplexInit f x0).best := by
+  have he : ∀ p, Honest f (evalAt f p) := fun p => rfl
+  have hv : ∀ v ∈ simplexVerts f x0, Honest f v := by
+    intro v hv
+    unfold simplexVerts at hv
+    obtain ⟨j, _, rfl⟩ := List.mem_map.mp hv
+    exact he _
+  unfold simplexInit
+  simp only
+  split
+  · exact he _
+  · next v vs heq =>
+    rw [heq] at hv
+    exact foldl_track_honest f vs v (hv v (by simp)) (fun x hx => hv x (by simp [hx]))
+
+/-- **simplex_value_is_f_run**: value consistency of the whole run, from `init`, without any hypothesis -/
+theorem simplex_value_is_f_run (f : Vec Rat → Rat) (x0 : Vec Rat) (t : Nat) : Honest f (simplexRun f x0 t).best := by
+  induction t with
+  | zero => exact simplexInit_honest f x0
+  | succ t ih => exact simplex_value_is_f f _ ih
+
+/-- the pinned C++ (`m_best.value = 1e100` before the loop) agrees with the repaired `init` when the first vertex value is
+below the magic number ... -/
+theorem simplexInitMagic_eq_of_small (f : Vec Rat → Rat) (x0 p0 : Vec Rat) (v : Sol Rat) (vs : List (Sol Rat))
+    (hverts : simplexVerts f x0 = v :: vs) (hsmall : v.value < 10 ^ 100) :
+    (simplexInitMagic f x0 p0).best = (simplexInit f x0).best := by
+  unfold simplexInitMagic simplexInit
+  simp only [hverts, List.foldl_cons]
+  have : track (⟨p0, Scalar.ofRat (10 ^ 100)⟩ : Sol Rat) v = v := by
+    unfold track
+    simp only [ofRat_rat]
+    rw [if_pos hsmall]
+  rw [this]
+
+/-- ... and is NOT honest for an objective whose values are all at least `1e100` (witness: the constant `10^100 + 1` in
+dimension one, fresh object = empty previous point): the reported value is the magic number, not the objective at the
+reported point (F16) -/
+theorem simplexInitMagic_not_honest_witness :
+    ¬ Honest (fun _ => (10 : Rat) ^ 100 + 1) (simplexInitMagic (fun _ => (10 : Rat) ^ 100 + 1) [0] []).best := by
+  unfold Honest simplexInitMagic simplexVerts evalAt track
+  simp [List.range, List.range.loop, List.zipIdx]
+  norm_num [Scalar.ofRat]
+
 /-! ## Cholesky factor of CMSA and ElitistCMA: the covariance stays symmetric positive definite -/
 
 /-- what `cholColumn` returns for column `j`: the new diagonal entry is `sqrt` of a positive number, lengths are kept -/
